@@ -267,13 +267,24 @@ TBalanced ==
   /\ UNCHANGED <<gvars, rootBad, lost>>
 
 \* the engine panicked during a valid call sequence (recorded by the recorder's recover handler)
+\* every Zobrist key, derived from hashes of positions that differ in one feature: different features, different keys
+\* (what lets GameModel.tla treat the hash as the SET of features of the position), none of them zero
+TZKeys ==
+  /\ IsEvent("zkeys")
+  /\ LET ev == Trace[l]
+         n == Len(ev.zkeys)
+         dup == {i \in 1..n : \E j \in 1..n : j < i /\ ev.zkeys[j] = ev.zkeys[i]}
+     IN /\ Expect(dup = {}, ev, "C04/zobrist-keys-collide", "", [pairs |-> {<<ev.znames[CHOOSE j \in 1..n : j < i /\ ev.zkeys[j] = ev.zkeys[i]], ev.znames[i]>> : i \in dup}])
+        /\ Expect(\A i \in 1..n : ev.zkeys[i] # "0000000000000000", ev, "C04/zobrist-keys-collide", "", [zero |-> {ev.znames[i] : i \in {k \in 1..n : ev.zkeys[k] = "0000000000000000"}}])
+  /\ UNCHANGED <<gvars, rootBad, lost>>
+
 TPanic ==
   /\ IsEvent("panic")
   /\ LET ev == Trace[l] IN Report(ev, IF ev.engine THEN "PANIC/engine" ELSE "INFRA/recorder-panic", "", [msg |-> ev.msg, root |-> ev.fen])
   /\ UNCHANGED <<gvars, rootBad, lost>>
 
 TInit == GInit /\ l = 1 /\ rootBad = FALSE /\ lost = FALSE
-Judged == TLoad \/ TMake \/ TNullMake \/ TUndo("undo") \/ TUndo("nullundo") \/ TTransp \/ TUciPosition \/ TUciRep \/ TPanic \/ TBalanced \/ TUciPerft \/ TUciMoves \/ TFenRejected
+Judged == TLoad \/ TMake \/ TNullMake \/ TUndo("undo") \/ TUndo("nullundo") \/ TTransp \/ TUciPosition \/ TUciRep \/ TPanic \/ TBalanced \/ TUciPerft \/ TUciMoves \/ TFenRejected \/ TZKeys
 Skip == /\ lost /\ l <= Len(Trace) /\ Trace[l].ev # "load" /\ l' = l + 1 /\ UNCHANGED <<gvars, rootBad, lost>>
 TNext == Skip \/ ((~lost \/ (l <= Len(Trace) /\ Trace[l].ev = "load")) /\ Judged)
 
